@@ -247,11 +247,13 @@ class Check(PropertyCheck):
                   "regenerated from /repo into Gen/C12.lean on every run; hpack/h2 framing of the HTTP/2 page is the h2 library's. "
                   "HTTP/3 uses the same format_error and header triple and is not driven end-to-end.")
     technique = "Lean 4 proof (induction over bytes/lines, deletion-relation lemma for dedent/strip) + translator tables + differential and end-to-end correspondence"
-    rule = ("fmt: every string of length <=2 (thorough: <=3, quick adds a slice of 3) over the 7 special characters & < > \" ' LF SP "
+    rule = ("fmt: a length ladder {0..64, 255/256/257, every length 1000..1030, 2 KiB, 8 KiB, 64 KiB} x markup density {0,10,50,100 %} and "
+            "single-character messages whose ESCAPED length walks over 1000..1030, then every string of length <=2 (thorough: <=3, quick adds a slice of 3) over the 7 special characters & < > \" ' LF SP "
             "with the statuses 400/413/502, then random messages (markup-, entity-fragment-, whitespace/newline- and non-ASCII-heavy, "
             "incl. invalid UTF-8 -> lone surrogates) with random status 100..999; e2e: scenario x protocol x mode x marker (the marker "
             "<script>\"'& or a random markup string) x segmentation. distinct = distinct case; non-trivial = message non-empty / "
-            "at least one error page produced.")
+            "at least one error page produced. e2e also runs the length ladder (300 B .. 8 KiB, thorough 64 KiB) through request line, "
+            "header, authority, upstream error text and server status line.")
     budget = {"quick": 9000, "thorough": 220000}
     time_budget = {"quick": 30, "thorough": 600}
     fingerprints = ["mitmproxy.proxy.layers.http._base:format_error",
@@ -292,6 +294,9 @@ class Check(PropertyCheck):
             for sc in scs:
                 for mode in ("regular", "transparent"):
                     yield {"op": "e2e", "proto": proto, "sc": sc, "mode": mode, "mk_hex": hx(MARK.encode()), "cut": 0}
+        # length ladder x markup density: raw and escaped length on either side of every plausible cap (256, 1024, 2K, 8K, 64K)
+        for c in self.length_ladder(rng, tier):
+            yield c
         yield fmt(400, "")
         maxn = 3 if tier == "thorough" else 2
         for n in range(1, maxn + 1):
@@ -310,12 +315,18 @@ class Check(PropertyCheck):
                 sc = rng.pick(H2_SCENARIOS if proto == "h2" else H1_SCENARIOS)
                 mk = MARK if rng.chance(0.4) else "".join(rng.pick(ALPHA) for _ in range(rng.randint(1, 12)))
                 if rng.chance(0.5): mk = mk + MARK[: rng.randint(1, len(MARK))]
+                if rng.chance(0.25):      # long reflected text
+                    mk = self.dense(rng, rng.pick([70, 255, 257, rng.randint(1000, 1030), rng.randint(160, 260), 2048, 8192]), rng.pick([0.05, 0.5, 1.0]))
                 yield {"op": "e2e", "proto": proto, "sc": sc, "mode": rng.pick(["regular", "regular", "transparent"]),
                        "mk_hex": hx(mk.encode()), "cut": rng.randint(0, 40) if rng.chance(0.4) else 0,
                        "novalidate": rng.chance(0.15)}
                 continue
             r = rng.random()
-            n = rng.randint(1, 40)
+            n = rng.weighted([(70, rng.randint(1, 40)), (12, rng.randint(41, 300)), (10, rng.randint(300, 1100)),
+                              (6, rng.randint(1000, 1030)), (2, rng.randint(1100, 9000))])
+            if n > 40 and rng.chance(0.6):
+                yield fmt(rng.pick(USED_STATUS), self.dense(rng, n, rng.pick([0.0, 0.02, 0.2, 0.5, 1.0])))
+                continue
             if r < 0.7:
                 s = "".join(rng.pick(ALPHA) for _ in range(n)).encode()
             elif r < 0.9:   # realistic message with one mutation
@@ -326,6 +337,37 @@ class Check(PropertyCheck):
                 s = rng.bytes_(n)
             st = rng.pick(USED_STATUS) if rng.chance(0.6) else rng.randint(100, 999)
             yield fmt(st, s)
+
+    @staticmethod
+    def dense(rng, n, density, chars="<>&\"'"):
+        """n characters, each a markup character with probability `density`, else filler"""
+        return "".join(rng.pick(chars) if rng.random() < density else rng.pick("ab c") for _ in range(n))
+
+    def length_ladder(self, rng, tier):
+        def fmt(status, s):
+            return {"op": "fmt", "status": status, "msg_hex": hx(s.encode())}
+        lengths = [0, 1, 2, 3, 7, 8, 15, 16, 31, 32, 33, 48, 63, 64, 255, 256, 257] + list(range(1000, 1031)) + [2048, 8192, 65536]
+        for n in lengths:
+            for d in (0.0, 0.1, 0.5, 1.0):
+                if n == 0 and d: continue
+                yield fmt(rng.pick(USED_STATUS), self.dense(rng, n, d))
+        # escaped length 1000..1030 while the raw text is well below: one kind of character, 4/5/6 bytes per entity
+        for ch, k in (("<", 4), ("&", 5), ("\"", 6), ("'", 6)):
+            for esc_len in range(1000, 1031):
+                if esc_len % k == 0 or esc_len in (1023, 1024, 1025):
+                    yield fmt(400, ch * (esc_len // k) + "x" * (esc_len % k))
+        # the same ladder end-to-end: long request line / header / authority / upstream error text / server status line
+        e2e_len = [300, 1000, 1023, 1024, 1025, 1030, 2048, 8192] + ([65536] if tier == "thorough" else [])
+        for n in e2e_len:
+            for d in (0.1, 1.0):
+                for proto, sc in (("h1", "badline"), ("h1", "badhdr"), ("h1", "badhost"), ("h1", "connfail"), ("h1", "badresp"),
+                                  ("h1", "badcl"), ("h2", "connfail"), ("h2", "badresp")):
+                    if tier == "quick" and n in (1000, 1030, 8192) and d == 0.1: continue
+                    yield {"op": "e2e", "proto": proto, "sc": sc, "mode": "regular", "mk_hex": hx(self.dense(rng, n, d).encode()), "cut": 0}
+        # dense-but-short markers: escaped > 1024 although raw < 1024
+        for n in (171, 205, 260, 600):
+            for proto, sc in (("h1", "badline"), ("h1", "connfail"), ("h2", "connfail")):
+                yield {"op": "e2e", "proto": proto, "sc": sc, "mode": "regular", "mk_hex": hx(self.dense(rng, n, 1.0).encode()), "cut": 0}
 
     # ---- implementation -----------------------------------------------------------------------------------------
     def impl(self, case):
